@@ -40,6 +40,7 @@ type loopInfo struct {
 	measures  []string
 	oldAtHead *State
 	framed    []string
+	headState *State
 }
 
 type deferRec struct {
@@ -90,6 +91,7 @@ type Frame struct {
 	label     string // prefix for obligation names
 	parent    *Frame
 	unwinding *unwindCtx
+	prevState *State
 	mods      map[string][]string
 }
 
@@ -393,6 +395,7 @@ func (f *Frame) loopHead(li *loopInfo, pc string, st *State, order []*ssa.BasicB
 	for _, hnt := range li.spec.Hints {
 		f.applyHint(hnt, pc, h, fmt.Sprintf("%s.hint", tag))
 	}
+	li.headState = h.clone()
 	li.measures = nil
 	for _, d := range li.spec.Decreases {
 		li.measures = append(li.measures, vc.define("measure", "Int", env.eval(d.E).T))
@@ -404,9 +407,11 @@ func (f *Frame) backEdge(li *loopInfo, cond string, st *State, from *ssa.BasicBl
 	vc := f.vc
 	tag := fmt.Sprintf("loop%d", li.index)
 	env := f.env(st)
+	f.prevState = li.headState
 	for _, hnt := range f.conHints(fmt.Sprintf("loop#%d.back", li.index)) {
 		f.applyHint(hnt, cond, st, tag+".back")
 	}
+	f.prevState = nil
 	for i, inv := range li.spec.Invariants {
 		t := env.evalBool(inv.E)
 		vc.oblige("inv-preserve", fmt.Sprintf("%s#inv:%s.%d/preserve", f.obFn(), tag, i+1), cond, t, f.pos(loopPos(li)), inv.Src)
@@ -443,6 +448,7 @@ func (f *Frame) applyHint(h Hint, pc string, st *State, where string) {
 
 func (f *Frame) applyHintCon(con *Contract, h Hint, pc string, st *State, where string) {
 	env := f.env(st)
+	env.prev = f.prevState
 	if f.parent != nil {
 		// inlined frame: contract-level names of the function under verification stay visible
 		for k, v := range f.root().spec {
@@ -453,6 +459,14 @@ func (f *Frame) applyHintCon(con *Contract, h Hint, pc string, st *State, where 
 	}
 	if h.Kind == "set" || h.Kind == "setdef" {
 		f.execSet(h, pc, st, env)
+		return
+	}
+	if h.Kind == "bind" {
+		v := env.pinContent(env.eval(h.E))
+		if len(v.T) > 30 {
+			v.T = f.vc.define("bind "+h.Bind, v.sort(f.vc), v.T)
+		}
+		f.root().spec[h.Bind] = v
 		return
 	}
 	t := env.evalBool(h.E)
